@@ -39,7 +39,7 @@ func init() {
 
 var c06Classes = []string{"hdrsize-oversized", "datasize-negative", "datasize-oversized", "rawsize-wrong", "rawsize-small", "rawsize-zero", "rawsize-huge", "zlib-corrupt", "encoding-lzma",
 	"encoding-none", "type-unknown", "feature-unsupported", "dense-no-ids", "dense-no-lat", "dense-no-lon", "string-oob-dense", "string-oob-way",
-	"string-oob-rel", "column-short", "way-lat-longer", "way-lat-short", "rel-types-short", "rel-roles-short", "rel-type-unknown", "plain-nodes", "tagkey-oob-dense"}
+	"string-oob-rel", "column-short", "way-lat-longer", "way-lat-short", "rel-types-short", "rel-roles-short", "rel-type-unknown", "plain-nodes", "tagkey-oob-dense", "stringtable-absent"}
 
 // c06Damaged serialises the file with frame pos damaged. ok=false when the class does not apply to that frame.
 func c06Damaged(pf *PFile, class string, pos int) ([]byte, bool) {
@@ -178,6 +178,31 @@ func c06Damaged(pf *PFile, class string, pos int) ([]byte, bool) {
 			d.SID = append([]int64{}, d.SID...)
 			d.SID[len(d.SID)-1] += int64(len(b.Strings)) + 3
 			return true
+		}) {
+			return nil, false
+		}
+	case "stringtable-absent":
+		// the block leaves out its string table although it refers to strings: every reference is out of range.
+		// (A decoder that keeps the table of the block it decoded before would resolve them there.)
+		if !blockDamage(func(b *PBlock) bool {
+			refs := false
+			for _, g := range b.Groups {
+				if d := g.Dense; d != nil && len(d.IDs) > 0 && d.HasInfo && len(d.SID) > 0 {
+					refs = true
+				}
+				for _, w := range g.Ways {
+					if len(w.Keys) > 0 {
+						refs = true
+					}
+				}
+				for _, r := range g.Rels {
+					if len(r.Roles) > 0 || len(r.Keys) > 0 {
+						refs = true
+					}
+				}
+			}
+			b.NoST = true
+			return refs
 		}) {
 			return nil, false
 		}
